@@ -22,7 +22,13 @@ META = {
              "Likelihood, posterior and multiple-likelihood gradients are replayed again through every model kind on expansion domain "
              "geometries (StepExpansion, KLExpansion with all / truncated modes: subclasses of an identity-like geometry with a "
              "non-identity linear par2fun u = E p): refused, or equal to E^T gradient_fun (invariant ExpansionChain); Gaussian "
-             "matrix inputs again at covariance magnitudes 4^-30, 4^30 (invariant ScalingLaw: gradient' = gradient / 2^e)."),
+             "matrix inputs again at covariance magnitudes 4^-30, 4^30 (invariant ScalingLaw: gradient' = gradient / 2^e). "
+             "Sequences on ONE object: every behaviour of Families.Reassign (parameters of one distribution replaced one after another "
+             "through the public setters, cold / warm / with enable_FD .. disable_FD) and walks through the state graph of FamiliesSeq.tla "
+             "(one likelihood / posterior / multiple-likelihood posterior whose noise parameter, data, prior mean and model domain geometry "
+             "are reassigned through public attributes and whose FD flags are toggled; invariants SeqIsFresh, SeqQuad, SeqDiffers, "
+             "SeqReference; deviation DevStaleAfterAssign refuted by TLC): after every operation the gradient is that of the CURRENT "
+             "configuration."),
     "note": ("A raised exception is accepted wherever a vector is specified (the property only constrains returned vectors) and is "
              "reported as an observation; FD results are compared at forward-difference accuracy; PDE-based models, "
              "DistributionGallery targets are not modelled; user-defined distributions: pass-through of gradient_func, refusal "
@@ -558,7 +564,13 @@ def run(ctx):
     from cuqiverif import families_common as fc, tlc
     from cuqiverif.core import MachineryError
     from cuqiverif.props import c04
-    res = fc.run_families(ctx)
+    from cuqiverif import c03_seq
+    seq_jobs = c03_seq.start_tlc(ctx)          # Families.reassign + FamiliesSeq (+ its named deviation), in background threads
+    try:
+        res = fc.run_families(ctx)
+    except BaseException:
+        c03_seq.discard_tlc(seq_jobs)
+        raise
     ctx.model_must_hold(res, "Families")
     cases = list(res.cases)
     tlc.cleanup(res)
@@ -584,6 +596,14 @@ def run(ctx):
         for i, c in enumerate(lst):
             dispatch(ctx, table, c, extras=(i % step == 0), idx=i)
             n += 1
+    # sequences of public operations on ONE object: parameters / data / prior / model geometry reassigned, FD toggled
+    ctx.traces = n
+    try:
+        c03_seq.run(ctx, table, seq_jobs)
+    except BaseException:
+        c03_seq.discard_tlc(seq_jobs)
+        raise
+    n = ctx.traces
     ctx.observations["cases_per_family"] = {f: len(v) for f, v in fams.items()}
     ctx.observations["decision_table_rows"] = len(table)
     for f in ("CMRF", "InverseGamma", "Lik"):
@@ -594,7 +614,10 @@ def run(ctx):
     ctx.rule = ("one case per lattice point (family x parameter patterns incl. non-zero location x dim x point inside / outside the "
                 "support x boundary condition x order; model kind x noise x prior x point for likelihoods) emitted by TLC with the "
                 "exact expected gradient; distinct non-trivial = distinct (call kind, case, way of passing parameters, sparse "
-                "threshold, geometry kind, FD flag) evaluated on the real objects")
+                "threshold, geometry kind, FD flag) evaluated on the real objects; sequences: one behaviour of Families.Reassign per "
+                "(start configuration, order of the assignment units) on one distribution object, and per base configuration of "
+                "FamiliesSeq walks through its state graph (every operation forth and back, assign-before-first-use, seeded walks) on "
+                "one likelihood, one posterior and one multiple-likelihood posterior")
     ctx.exhaustive = True
     ctx.traces = n
     ctx.assumptions += ["equality 'gradient = derivative of this object's log-density' uses the same lattice points whose logpdf is "
@@ -611,4 +634,7 @@ def replay(ctx, case):
     res = fc.run_families(ctx, fams=["Normal"], tier="quick", workers=2)     # the decision table comes from the spec
     table = load_table(res.cases)
     tlc.cleanup(res)
+    if case.get("kind") in ("reassign_seq", "seqwalk"):
+        from cuqiverif import c03_seq
+        return c03_seq.replay(ctx, table, case)
     dispatch(ctx, table, case, extras=True, idx=case.get("cfg", {}).get("x", 0))
